@@ -524,6 +524,21 @@ void vrt_lib_forget_all(void)
     if (tab) memset(tab, 0, tabcap * sizeof(*tab));
     tablive = tabused = tabbytes = 0;
 }
+/* give the memory of every live library block of at least min_bytes back to the system (an abandoned case of
+ * harness/huge.c would otherwise keep gigabytes); the blocks stay unknown to the table afterwards */
+void vrt_lib_release_big(size_t min_bytes)
+{
+    size_t j;
+    for (j = 0; j < tabcap; j++) {
+        if (tab[j].p != NULL && tab[j].p != TOMB && tab[j].sz >= min_bytes) {
+            void *p = tab[j].p;
+            tabbytes -= tab[j].sz;
+            tab[j].p = TOMB; tab[j].sz = 0;
+            tablive--;
+            __real_free(p);
+        }
+    }
+}
 void vrt_lib_free_block(void *p)
 {
     tlock();
